@@ -407,6 +407,24 @@ theorem C08_lateral (H : Ham) (g1 g2 : Taxon) (ml : LMap) (h : lateral H g1 g2 =
     (∀ g, (g = g1 ∨ g = g2) → g ≠ ml.anc → ∃ e ∈ ml.maps, e.1 = g) :=
   Pyham.C08_lateral H g1 g2 ml h
 
+/-- **lateral comparisons, END TO END**: for every consistent dataset and any two genomes, every map of the lateral comparison
+    (one per compared genome other than the common ancestor) reports as many duplicated copies and retained genes as the
+    histories say about the branch from the common ancestor to that genome (`C08_lateral` + `C06_reported_count_is_the_history`) -/
+theorem C08_lateral_counts_are_the_history (D : Dataset) (hc : D.Consistent) :
+    ∃ H, load D.T D.nm D.file = .ok H ∧ ∀ g1 g2 ml, lateral H g1 g2 = .ok ml →
+      ml.anc = mrca2 g1 g2 ∧ ∀ e ∈ ml.maps,
+        (e.2.dupl.map (·.2.length)).sum = (D.fams.map fun f => reportedAt true (mrca2 g1 g2) e.1 f.1 none f.2).sum ∧
+        e.2.retained.length = (D.fams.map fun f => reportedAt false (mrca2 g1 g2) e.1 f.1 none f.2).sum := by
+  obtain ⟨H, hl, hrep⟩ := Pyham.C06_reported_count_is_the_history D hc
+  refine ⟨H, hl, ?_⟩
+  intro g1 g2 ml hml
+  obtain ⟨hanc, _, _, hmaps, _⟩ := Pyham.C08_lateral H g1 g2 ml hml
+  refine ⟨hanc, ?_⟩
+  intro e he
+  obtain ⟨_, _, heq, _⟩ := hmaps e he
+  rw [heq, hanc]
+  exact hrep (mrca2 g1 g2) e.1
+
 theorem C08_lateral_symm (H : Ham) (g1 g2 : Taxon) (m1 m2 : LMap)
     (h1 : lateral H g1 g2 = .ok m1) (h2 : lateral H g2 g1 = .ok m2) : m1.anc = m2.anc ∧ m1.maps.Perm m2.maps :=
   Pyham.C08_lateral_symm H g1 g2 m1 m2 h1 h2
